@@ -202,6 +202,8 @@ def check_reject(case, rec):
     m = make_metric(case["metric"], {})
     good = frame([{"va": 0, "vb": 0, "a": "CAVF", "b": "CASSF"}, {"va": 1, "vb": 2, "a": "CAF", "b": "CASF"}], "default")
     bad = BAD_INPUTS[case["bad"]]()
+    if case.get("empty_good"):
+        good = good.iloc[:0]          # a valid TCR table that happens to have no rows
     args = {"anchors": (bad, good), "comparisons": (good, bad), "pdist": (bad,)}[case["where"]]
     f = m.calc_pdist_vector if case["where"] == "pdist" else m.calc_cdist_matrix
     try:
@@ -218,6 +220,8 @@ def enum_reject(tier):
         for b in BAD_INPUTS:
             for where in ("anchors", "comparisons", "pdist"):
                 yield {"metric": mname, "bad": b, "where": where}
+                if where != "pdist":
+                    yield {"metric": mname, "bad": b, "where": where, "empty_good": True}
 
 
 @st.composite
